@@ -41,7 +41,7 @@ def _replay(rep, r):
 def run(tier, seed):
     return run_property(
         "C13", tier, seed, level="other",
-        deductive=[("c08_locks", r"C13\.|C08\.release|C08\.lock"), ("c04_graph", r"reroute"), ("c_op", r"^C13\.op|^C08\.op\.failed"), ("c13_inplace", r"^C13\."), ("c04_dupgraph", r"^C13\.restore")],
+        deductive=[("c08_locks", r"C13\.|C08\.release|C08\.lock"), ("c04_graph", r"reroute"), ("c_op", r"^C13\.op|^C08\.op\.failed"), ("c13_inplace", r"^C13\."), ("c04_dupgraph", r"^C13\.restore"), ("c04_shape", r"^C13\.shape")],
         replay=_replay,
         bounded=[("state_bounded.py", ["--check", "C13"])],
         trusted=["pyvc heap/dict model of the lock tables", "NumPy refuses flags.writeable=True on a view whose base is read-only (hence a view's flag is restored lazily, when its base is released)"],
